@@ -179,27 +179,41 @@ def run(ctx):
         check_division(b)
 
     def do_perm(kind, k, hist):
-        """terrain = a permutation of the tile objects the manager holds (reverse / rotate by k): O1, O2, contents follow"""
+        """terrain = a list built from the tile objects the manager holds: O1, O2, contents follow.
+        reverse / rotate by k: a permutation; prefix: the first (a-k)^2 objects (same objects at the same list positions,
+        other map size); extend: the objects followed by new tiles up to (a+k)^2"""
         a, before = snapshot()
         objs = list(mm.terrain)
-        new = objs[::-1] if kind == "reverse" else objs[k:] + objs[:k]
-        want = before[::-1] if kind == "reverse" else before[k:] + before[:k]
+        size_after = a
+        if kind == "reverse":
+            new, want, cmd = objs[::-1], before[::-1], "reverse"
+        elif kind == "rotate":
+            new, want, cmd = objs[k:] + objs[:k], before[k:] + before[:k], f"rotate {k}"
+        elif kind == "prefix":
+            size_after = max(a - k, 0)
+            n = size_after * size_after
+            new, want, cmd = objs[:n], before[:n], f"prefix {n}"
+        else:
+            size_after = a + k
+            n = size_after * size_after - a * a
+            extra = mk_tiles(n, 5000)
+            new, cmd = objs + extra, f"extend {n} 5000"
+            want = before + [(int(t.terrain_id), int(t.elevation), int(t.layer)) for t in extra]
 
         def assign():
             mm.terrain = new
         st, _ = common.outcome(assign)
         h2 = hist + [(kind, k)]
-        cmd = "reverse" if kind == "reverse" else f"rotate {k}"
-        R.case(key=("perm",) + tuple(map(tuple, h2)), nontrivial=a >= 2, tags=("terrain:permute", f"depth{len(h2) - 1}"))
+        R.case(key=("perm",) + tuple(map(tuple, h2)), nontrivial=a >= 2, tags=("terrain:" + ("permute" if size_after == a else kind), f"depth{len(h2) - 1}"))
         if st != "ok":
             add(cmd, "error", h2)
-            violation({"op": "terrain", "class": "square-rejected"}, f"terrain = permutation of the {a}x{a} tiles raised", {"op": "history", "history": h2})
+            violation({"op": "terrain", "class": "square-rejected"}, f"terrain = {kind} of the {a}x{a} tiles raised", {"op": "history", "history": h2})
             return
         add(cmd, "ok " + dump(), h2)
         check_geometry(h2)
         s2, after = snapshot()
-        if s2 != a or after != want or any(u is not v for u, v in zip(mm.terrain, new)):
-            violation({"op": "terrain", "class": "content-changed"}, f"terrain = permutation of the tiles: contents/objects not in the assigned order ({h2})",
+        if s2 != size_after or after != want or any(u is not v for u, v in zip(mm.terrain, new)):
+            violation({"op": "terrain", "class": "content-changed"}, f"terrain = {kind} of the tiles: contents/objects not in the assigned order ({h2})",
                       {"op": "history", "history": h2})
 
     def do_op(op, hist):
@@ -386,7 +400,7 @@ def run(ctx):
         if depth == max_depth:
             return
         saved = list(mm.terrain)
-        for op in [("size", b) for b in alphabet] + [("reverse", 0), ("rotate", 1)]:
+        for op in [("size", b) for b in alphabet] + [("reverse", 0), ("rotate", 1), ("prefix", 1), ("extend", 1)]:
             add("push", "ok")
             do_op(op, hist)
             dfs(hist + [op], depth + 1, start)
